@@ -716,6 +716,15 @@ def make_slow_store(slow_k: int, lat: Any, land_first: bool) -> Any:
                 self.n_status_writes = 0
                 self.slow_hit: Any = None
 
+            async def query(self, query: Any) -> Any:
+                # slow_k == -1: EVERY handler look-up by run id (what the release timer and update_handler_status do; the harness itself
+                # looks handlers up by handler id) returns its answer `lat` seconds late — read first, delivered late (a stale answer)
+                if self.slow_k == -1 and getattr(query, "run_id_in", None):
+                    found = await super().query(query)
+                    await asyncio.sleep(self.lat)
+                    return found
+                return await super().query(query)
+
             async def update_handler_status(self, run_id: str, **kw: Any) -> None:
                 k = self.n_status_writes
                 self.n_status_writes += 1
